@@ -11,14 +11,14 @@
 //           mjc_pointSupport / mjc_lineSupport), called as obj.support(res, &obj, dir)
 //   msupp nv v0x v0y v0z ... p0 p1 p2 m0..m8 d0 d1 d2 cached
 //        -> "r0 r1 r2 <vertindex>"      mjc_meshSupport (exhaustive) on the given float vertices, obj.vertindex = cached
-//   pair <kind1> s[3] p[3] q[4] <kind2> s[3] p[3] q[4] tol iters cutoff margin
+//   pair <kind1> s[3] p[3] q[4] <kind2> s[3] p[3] q[4] tol iters cutoff distmax margin
 //        a two-geom model is compiled through the mjSpec API (both geoms in the world body), mj_kinematics is run,
 //        opt.ccd_tolerance / opt.ccd_iterations are set, then on that model
 //        -> "G <t1> size[3] xpos[3] xmat[9] <t2> size[3] xpos[3] xmat[9]          (what the engine actually uses)
 //            C  <dist> <nx> <separated> <gjk_it> <epa_it> <epa_status> x1[3] x2[3]  mjc_ccd(obj1,obj2), max_contacts=1, dist_cutoff=cutoff
 //            CS ...                                                                   mjc_ccd(obj2,obj1)
-//            D  <ccdpath> <dist> fromto[6]        mj_geomDistance(m,d,0,1,cutoff,fromto)   ccdpath = dispatch goes to mjc_ccd
-//            DS <ccdpath> <dist> fromto[6]        mj_geomDistance(m,d,1,0,cutoff,fromto)
+//            D  <ccdpath> <dist> fromto[6]        mj_geomDistance(m,d,0,1,distmax,fromto)  ccdpath = dispatch goes to mjc_ccd
+//            DS <ccdpath> <dist> fromto[6]        mj_geomDistance(m,d,1,0,distmax,fromto)
 //            V  <n> {dist pos[3] normal[3]}*n     mjc_Convex(m,d,con,0,1,margin)
 //            VS <n> {...}                         mjc_Convex(m,d,con,1,0,margin)"
 //        mesh kind: `mesh nv v0x v0y v0z ...` replaces `s[3]` (vertices as doubles; a convex point set whose hull the
@@ -252,10 +252,10 @@ static void run_convex(const mjModel* m, mjData* d, int ga, int gb, double margi
 }
 
 static void do_pair(void) {
-  GeomIn g1, g2; double tol, cutoff, margin; long iters;
+  GeomIn g1, g2; double tol, cutoff, distmax, margin; long iters;
   int ok = read_geom(&g1) && read_geom(&g2) && rbits(next(), &tol) && rint_(next(), &iters) &&
-           rbits(next(), &cutoff) && rbits(next(), &margin) && !next() && iters >= 1 && iters <= 100000 &&
-           tol >= 0 && cutoff >= 0 && margin >= 0;
+           rbits(next(), &cutoff) && rbits(next(), &distmax) && rbits(next(), &margin) && !next() &&
+           iters >= 1 && iters <= 100000 && tol >= 0 && cutoff >= 0 && distmax >= 0 && margin >= 0;
   if (!ok) { puts("bad-op"); free(g1.verts); free(g2.verts); return; }
   mjSpec* volatile s = NULL; mjModel* volatile m = NULL; mjData* volatile d = NULL;
   errarmed = 1;
@@ -274,8 +274,8 @@ static void do_pair(void) {
     printf("G"); print_geom(m, d, 0); print_geom(m, d, 1);
     printf(" C");  run_ccd(m, d, 0, 1, tol, (int)iters, cutoff);
     printf(" CS"); run_ccd(m, d, 1, 0, tol, (int)iters, cutoff);
-    printf(" D");  run_dist(m, d, 0, 1, cutoff);
-    printf(" DS"); run_dist(m, d, 1, 0, cutoff);
+    printf(" D");  run_dist(m, d, 0, 1, distmax);
+    printf(" DS"); run_dist(m, d, 1, 0, distmax);
     printf(" V");  run_convex(m, d, 0, 1, margin);
     printf(" VS"); run_convex(m, d, 1, 0, margin);
     putchar('\n');
